@@ -237,7 +237,12 @@ func runC08(c *Ctx, r *Report) {
 		// the key is followed back through parameters and captured variables to what it is bound to in sendRPC
 		for _, bc := range callsThroughHelpers(sendRPC, getMsg, 3) {
 			found = true
-			okPoll = isOwnID(bc.Resolve(bc.Call.Common().Args[1]))
+			key := bc.Resolve(bc.Call.Common().Args[1])
+			okPoll = isOwnID(key)
+			if fl, base, ok := fieldLoad(key); ok && fl == msgIDF && !okPoll {
+				// the helper was handed the message itself: m.MessageID of the helper's parameter
+				okPoll = sameParam(bc.Resolve(base), mParam)
+			}
 		}
 		r.Check(okSer && found && okPoll, "C08/own-id", "sendRPC polls its own id", c.Pos(sendRPC.Pos()), "serialises m and polls getMessage(m.MessageID)",
 			"sendRPC does not poll the store for the id of the message it serialised and wrote: a call can return the reply to another request")
